@@ -1,4 +1,7 @@
 // overlay-only binary: entry point of the native observation layer
+#[global_allocator]
+static LEDGER: nederlang::__verif_heap::Counting = nederlang::__verif_heap::Counting;
+
 fn main() {
     nederlang::__verif_dump::main();
 }
